@@ -211,7 +211,8 @@ def history_steps(rng, nsteps, interrupts=True, deletes=True, observe="restore_a
     return steps
 
 
-BIG_OPTS = [{"H": 1000, "M": 1000, "S": 1000}, {"H": 3, "M": 300, "S": 200}, {"H": 1000, "M": 128, "S": 100}, {"H": 2, "M": 1000, "S": 64}]
+BIG_OPTS = [{"H": 1000, "M": 1000, "S": 1000}, {"H": 3, "M": 300, "S": 200}, {"H": 1000, "M": 128, "S": 100}, {"H": 2, "M": 1000, "S": 64},
+            {"H": 1000, "M": 4000, "S": 1000}, {"H": 4, "M": 2000, "S": 700}]
 
 
 def prefix_history(rng, nsteps=3, observe=None, deletes=True):
@@ -372,6 +373,14 @@ def gen_c13(tier, seed):
         if rng.random() < 0.5:
             steps += [bk(o)]
         scens.append({"id": sid("C13", "flt", i), "props": ["C13"], "mode": "fault", "tags": ["faults"], "steps": steps})
+    # contents that are prefixes / extensions / duplicates of their neighbours, combined into shared blocks
+    for i in range(12 if tier == "quick" else 150):
+        t = cvlib.prefix_family_tree(rng, dirs=rng.choice([("",), ("", "d", "d.x")]))
+        o = rng.choice(BIG_OPTS)
+        steps = [{"op": "tree", "tree": t}, bk(o)]
+        if i % 2:
+            steps += prefix_history(rng, nsteps=1, deletes=False)[2:]
+        scens.append({"id": sid("C13", "pfx", i), "props": ["C13"], "mode": "clean", "tags": ["prefix-family"], "steps": steps})
     # the source changing under the backup: a file cut shorter (or removed) between the listing of its
     # directory and its turn to be read
     for i in range(8 if tier == "quick" else 80):
@@ -444,8 +453,8 @@ def gen_c14(tier, seed):
             for nm in rng.sample(["m1", "z1", "zz", "k"], 2):
                 if "/" + nm not in have:
                     t0.append(node("/" + nm, "File", cvlib.rand_content(rng, 5), mt=(1600000600, 0)))
-            if not any(n["k"] == "Dir" and n["p"] for n in t0):
-                t0 += [node("/d", "Dir"), node("/d/a", "File", b"\x01\x02"), node("/d/b", "File", b"\x03")]
+            if not any(n["k"] == "Dir" and n["p"] for n in t0) and "/sub" not in have:
+                t0 += [node("/sub", "Dir"), node("/sub/a", "File", b"\x01\x02"), node("/sub/b", "File", b"\x03")]
         t1 = mut(rng, t0, maxlen=9)
         o = rng.choice(OPTS_POOL[:5] + [{"H": 1000, "M": 1000, "S": 1000}, {"H": 3, "M": 8, "S": 4}])
         pre = rng.random() < 0.75
@@ -461,6 +470,17 @@ def gen_c14(tier, seed):
                  {"op": "sweep", "base": bk(o), "mode": "crash_both", "sample": 0 if tier != "quick" else 14, "seed": i,
                   "then": [bk(o), {"op": "restore", "band": -1}]}]
         scens.append({"id": sid("C14", "resume", i), "props": ["C14"], "mode": "clean", "tags": ["resume"], "steps": steps})
+    # two overlapping backups whose sources share contents: each distinct block content is still written once
+    for i in range(4 if tier == "quick" else 40):
+        o = rng.choice([{"H": 1000, "M": 1000, "S": 0}, {"H": 2, "M": 3, "S": 0}, {"H": 1000, "M": 1000, "S": 1}])
+        shared = [bytes([rng.choice([1, 2, 3])]) * rng.randrange(2, 5) for _ in range(2)]
+        ta = [node("/", "Dir"), node("/s0", "File", shared[0]), node("/s1", "File", shared[1]), node("/pa", "File", bytes([8]) * 3, mt=(1600000031, 0))]
+        tb = [node("/", "Dir"), node("/s0", "File", shared[0]), node("/t1", "File", shared[1], mt=(1600000032, 0)), node("/pb", "File", bytes([9]) * 2, mt=(1600000033, 0))]
+        steps = [{"op": "tree", "tree": [node("/", "Dir"), node("/z", "File", b"\x07")]}] + ([bk(o)] if i % 2 else []) + [
+                 {"op": "conc_sweep", "actors": [bk(o, actor="bk1", tree=ta), bk(o, actor="bk2", tree=tb)],
+                  "preemptions": 2, "sample": 60 if tier == "quick" else 1000, "seed": seed * 100 + i,
+                  "then": [{"op": "restore_all"}]}]
+        scens.append({"id": sid("C14", "overlap", i), "props": ["C14"], "mode": "conc", "tags": ["backup-vs-backup", "shared-contents"], "steps": steps})
     # directed: the resume point of the interrupted run is the last file of a directory whose
     # sub-directories' contents follow in the older version's hunk (path order: a directory's own
     # entries first, then the contents of its sub-directories; plain string order differs); every
@@ -1254,6 +1274,26 @@ def gen_c15(tier, seed):
             if j == 0:
                 steps.append({"op": "restore", "band": 2 + j, "excl": pats})
         scens.append({"id": sid("C15", "x", i), "props": ["C15"], "mode": "clean", "tags": ["exclude"], "steps": steps})
+    # the same names at several depths, patterns anchored at the root, at a depth, and unanchored
+    for i in range(60 if tier == "quick" else 800):
+        nm = rng.sample(["a", "b", "build", "x.o", "tmp", "d"], 4)
+        t = random_tree(rng, nmax=rng.choice([8, 12, 18]), depth=4, names=nm, pre_epoch=False, maxlen=3)
+        tops = [path_str(nd["p"]) for nd in t if len(nd["p"]) == 1]
+        deep = [path_str(nd["p"]) for nd in t if len(nd["p"]) >= 2]
+        pats = []
+        if tops:
+            x = rng.choice(tops)
+            pats.append(rng.choice([x, x[:-1] + "?", "/" + x[1:2] + "*", "/*" + x[-1:]]))
+        if deep and rng.random() < 0.5:
+            pats.append(rng.choice(deep))
+        if rng.random() < 0.4:
+            pats.append(rng.choice(nm))
+        if not pats:
+            pats = ["/a"]
+        o = {"H": rng.choice([1, 2, 3, 1000]), "M": 1000, "S": 1000}
+        scens.append({"id": sid("C15", "depths", i), "props": ["C15"], "mode": "clean", "tags": ["exclude", "repeated-names"],
+                      "steps": [{"op": "tree", "tree": t}, {"op": "walk", "excl": pats}, bk(o, excl=pats), {"op": "list", "band": 0},
+                                bk(o), {"op": "list", "band": 1, "excl": pats}, {"op": "restore", "band": 1, "excl": pats}]})
     return scens, mcs
 
 
@@ -1282,6 +1322,20 @@ def gen_c16(tier, seed):
             used.add(path_str(p))
             u, g = rng.choice(cvlib.OWNERS)
             t.append(node(path_str(p), "Symlink", target=rng.choice(LINK_TARGETS), mt=rng.choice(cvlib.MTIMES[:3]), u=u, g=g))
+        if i % 3 == 0:
+            # a symlink named like a temporary, backup or partial name of a sibling file
+            for parent in rng.sample(dirs, min(len(dirs), 2)):
+                stem = rng.choice(["report", "x", "data"])
+                f = parent["p"] + [list((stem + rng.choice([".txt", ".y", ""])).encode())]
+                if path_str(f) not in used:
+                    used.add(path_str(f))
+                    t.append(node(path_str(f), "File", cvlib.rand_content(rng, 4) or b"\x01", mode=rng.choice([0o644, 0o600, 0o755])))
+                for suf in rng.sample([".tmp", ".bak", ".part", ".new", "~", ".swp", ".tmp~", ".orig"], 3):
+                    for base in (stem, bytes(f[-1]).decode()):
+                        l = parent["p"] + [list((base + suf).encode())]
+                        if path_str(l) not in used:
+                            used.add(path_str(l))
+                            t.append(node(path_str(l), "Symlink", target=rng.choice(LINK_TARGETS[:4] + LINK_TARGETS[5:9]), mt=rng.choice(cvlib.MTIMES[:3])))
         o = rand_opts(rng)
         steps = [{"op": "outside", "tree": OUTSIDE}, {"op": "tree", "tree": t}, bk(o)]
         dest = rng.choice(["fresh", "fresh", "absent", "nonempty"])
@@ -1321,6 +1375,20 @@ def gen_c17(tier, seed):
             f3 = rng.choice(flavors)
             steps += [{"op": "new_archive", "rt": f3}] + hist + [{"op": "archive_digest"}]
         scens.append({"id": sid("C17", "r", i), "props": ["C17"], "mode": "clean", "tags": ["replay", f1, f2], "steps": steps})
+    # a gc of many unreferenced blocks in which the removal of ONE block (chosen by its content, not by
+    # its position in the run) is refused: what is left must not depend on scheduling
+    for i in range(3 if tier == "quick" else 20):
+        n = rng.choice([90, 140, 200])
+        cont = lambda j: bytes([(j % 250) + 1, 3, (j // 250) + 1])
+        t0 = [node("/", "Dir"), node("/keep", "File", b"\x01\x01")]
+        t1 = [node("/", "Dir"), node("/keep", "File", b"\x01\x01")] + [node("/f%03d" % j, "File", cont(j), mt=(1600009000 + j, 0)) for j in range(n)]
+        o = {"H": 1000, "M": 1000, "S": 0}
+        victim = cont(rng.randrange(n))
+        hist = [{"op": "tree", "tree": t0}, bk(o), {"op": "tree", "tree": t1}, bk(o),
+                {"op": "delete", "bands": [1], "dry": False, "fail_block": [{"verb": "remove_file", "content": list(victim), "kind": rng.choice(["PermissionDenied", "Other"])}]}]
+        f1, f2 = rng.sample(["ct", "mt2", "mt8"], 2)
+        steps = [{"op": "new_archive", "rt": f1}] + hist + [{"op": "archive_digest"}, {"op": "new_archive", "rt": f2}] + hist + [{"op": "archive_digest"}]
+        scens.append({"id": sid("C17", "refused-removal", i), "props": ["C17"], "mode": "clean", "tags": ["replay", "fault-by-name", "many-blocks"], "steps": steps})
     # files whose mtime is slightly ahead of (or just behind) the clock when the first replay starts, and
     # a second replay that starts a few seconds later: nothing but the documented start/end times may
     # depend on when a backup runs
@@ -1734,7 +1802,7 @@ def run_check(prop, tier, seed, t0, keep=False):
     else:
         scens = gen_out
     own = len(scens)
-    scens = scens + common_pool(prop, tier, seed)
+    scens = [cvlib.fix_scenario(x) for x in scens + common_pool(prop, tier, seed)]
     by_id = {s["id"]: s for s in scens}
     mc = list(mc)
     for entry in MODELS.get(prop, {}).get(tier, []):
